@@ -43,6 +43,10 @@ func hasContentions(v V) bool { return v == V5 }
 type Case struct {
 	Name  string
 	Frame *frame.Frame
+	// Invalid: the frame is NOT valid for its version (emitted only with Opts.Invalid); encoders are expected
+	// to refuse it, possibly after having written part of it - an error path whose leftovers must not leak
+	// into the next encode.
+	Invalid bool
 }
 
 func cl(c primitive.ConsistencyLevel) *primitive.ConsistencyLevel { return &c }
